@@ -47,13 +47,28 @@ pub fn tame(p: &mut Program, s: &mut Src, foreign: bool) {
                 // a foreign producer may store invalid-state values outside the documented set
                 if foreign && s.chance(1, 6) {
                     match r.name.as_str() {
-                        "cartesianInvalidState" | "sphericalInvalidState" => r.ty = RType::Int { min: 0, max: *s.pick(&[3, 7]) },
-                        "isColorInvalid" | "isIntensityInvalid" => r.ty = RType::Int { min: 0, max: *s.pick(&[2, 3]) },
+                        // (also wide ranges: values whose low byte or low bits look like a documented value are still outside the set)
+                        "cartesianInvalidState" | "sphericalInvalidState" => r.ty = RType::Int { min: *s.pick(&[0i64, 0, 0, -256, -1]), max: *s.pick(&[3, 7, 255, 256, 257, 258, 513, 65536, 1 << 32]) },
+                        "isColorInvalid" | "isIntensityInvalid" => r.ty = RType::Int { min: *s.pick(&[0i64, 0, -256]), max: *s.pick(&[2, 3, 256, 257, 65537]) },
                         _ => {}
                     }
                 }
             }
-            if s.chance(1, 2) {
+            if s.chance(1, 8) {
+                // nearly (or exactly) the default pose, see gen::pose_any
+                let mut p = gen::pose_any(s);
+                for _ in 0..8 {
+                    if p.rot.iter().chain(p.trans.iter()).all(|f| f.0.is_finite() && f.0.abs() < 1e6) && (p.rot.iter().map(|f| f.0 * f.0).sum::<f64>() - 1.0).abs() < 1e-9 {
+                        break;
+                    }
+                    p = gen::pose_any(s);
+                }
+                if p.rot.iter().chain(p.trans.iter()).all(|f| f.0.is_finite() && f.0.abs() < 1e6) && (p.rot.iter().map(|f| f.0 * f.0).sum::<f64>() - 1.0).abs() < 1e-9 {
+                    c.meta.pose = Some(p);
+                } else {
+                    c.meta.pose = None;
+                }
+            } else if s.chance(1, 2) {
                 let q = gen::unit_quat(s);
                 c.meta.pose = Some(Pose { rot: [F64(q[0]), F64(q[1]), F64(q[2]), F64(q[3])], trans: [F64(s.range(-1000, 1000) as f64 / 8.0), F64(s.range(-1000, 1000) as f64 / 8.0), F64(s.range(-10, 10) as f64)] });
             } else if c.meta.pose.is_some() {
